@@ -60,6 +60,11 @@ theorem removeParents_ctx (s : St) (c : Nat) :
   · rename_i x _
     exact removeFold_ctx c (parentOwners s x.parents) s
 
+theorem markFailed_ctx (s : St) (c : Nat) :
+    (markFailed s c).cur = s.cur ∧ (markFailed s c).depth = s.depth ∧ (markFailed s c).proc = s.proc := by
+  unfold markFailed
+  split <;> exact ⟨rfl, rfl, rfl⟩
+
 /-- leaving an evaluation that was entered from a state with the context of `s` -/
 theorem Frame.of_leave {s s4 : St} (hd : s4.depth = s.depth + 1)
     (hp : ∀ k, k ∈ s.proc → k ∈ s4.proc) : Frame s (leave s.cur s4) := by
@@ -139,6 +144,11 @@ theorem evalTree_frame {rec : Rec} (hrec : FrameRec rec) : ∀ (t : Tree) (s s' 
       | ok u =>
         simp only at h
         exact f1.trans (ih _ s' r h)
+  | fail =>
+    intro s s' r h
+    simp only [evalTree] at h
+    injection h with h; injection h with h1 _; subst h1
+    exact Frame.refl _
 
 theorem precheck_frame {rec : Rec} (hrec : FrameRec rec) : ∀ (ps : List (PRef × Int)) (s s' : St) (r : Except Err Bool),
     precheck rec ps s = some (s', r) → Frame s s' := by
@@ -347,7 +357,8 @@ theorem evalBody_frame {rec : Rec} (hrec : FrameRec rec) {c : Nat} {tree : Tree}
       | err e =>
         simp only at h
         injection h with h; injection h with h1 _; subst h1
-        exact Frame.of_leave d4 p4
+        obtain ⟨_, dm, pm⟩ := markFailed_ctx s4 c
+        exact Frame.of_leave (s4 := markFailed s4 c) (dm.trans d4) (fun k hk => by rw [pm]; exact p4 k hk)
       | ok v =>
         simp only at h
         cases hx4 : s4.comps c with
